@@ -408,12 +408,70 @@ func main() {
 			fmt.Println(line)
 		}
 	}
+	// A contract that no longer fits the shape of the code (a clause names a loop, call or variable that is gone; a
+	// construct the engine cannot translate; a registered obligation that is no longer generated) decides nothing:
+	// every failure inside such a function is a consequence of the mismatch, not evidence against the property.
+	// Such functions are reported as UNDECIDED (exit 2 when nothing else fails); a VIOLATION is a failed proof
+	// obligation of a function whose contract still resolves and translates completely.
+	structural := map[string]bool{}
 	for _, o := range realViolations {
+		if o.Kind == "contract.resolves" || o.Kind == "translates" || o.Kind == "exists" {
+			structural[o.Func] = true
+		}
+	}
+	funcOf := func(o *Obligation) string {
+		if o.Func != "" {
+			return o.Func
+		}
+		best := ""
+		for _, k := range keys {
+			if strings.HasPrefix(o.Name, k+".") && len(k) > len(best) {
+				best = k
+			}
+		}
+		return best
+	}
+	var decided, undecided []*Obligation
+	for _, o := range realViolations {
+		f := funcOf(o)
+		if os.Getenv("VERIF_STRUCTURAL_AS_VIOLATION") == "" && (structural[f] || o.Kind == "missing") {
+			undecided = append(undecided, o)
+		} else {
+			decided = append(decided, o)
+		}
+	}
+	for _, o := range decided {
 		path := filepath.Join(replayDir, fmt.Sprintf("%s-%s.json", *prop, sanitize(o.Name)))
 		writeReplay(path, *prop, o)
 		fmt.Printf("VIOLATION property=%s replay=%s obligation=%s no-failing-input-found\n", *prop, path, o.Name)
 		exit = 1
 	}
+	seenU := map[string]bool{}
+	for _, o := range undecided {
+		f := funcOf(o)
+		if seenU[f] {
+			continue
+		}
+		seenU[f] = true
+		why := o.Note
+		for _, x := range undecided {
+			if funcOf(x) == f && (x.Kind == "contract.resolves" || x.Kind == "translates" || x.Kind == "exists") {
+				why = x.Note
+				break
+			}
+		}
+		var names []string
+		for _, x := range undecided {
+			if funcOf(x) == f {
+				names = append(names, strings.TrimPrefix(x.Name, f+"."))
+			}
+		}
+		fmt.Printf("UNDECIDED property=%s function=%s: the contract no longer fits the code (%s) [%s]\n", *prop, f, trunc(strings.TrimSpace(why), 300), trunc(strings.Join(names, ", "), 300))
+		if exit == 0 {
+			exit = 2
+		}
+	}
+	realViolations = decided
 	for _, o := range broken {
 		fmt.Fprintf(os.Stderr, "BROKEN-CHECK %s: %s\n", o.Name, o.Note)
 		if exit == 0 {
@@ -622,7 +680,26 @@ func runWitness(repo, verifDir string, k *KnownFinding) string {
 var ordRe = regexp.MustCompile(`(call|Call|IndexAddr|FieldAddr|Slice|TypeAssert|UnOp|BinOp|MakeSlice|Lookup|MapUpdate|Store|defer)\d+`)
 
 // normName: obligation names modulo instruction ordinals; a call and the same call deferred are the same site
+var siteRe = regexp.MustCompile(`^(call|Call|IndexAddr|FieldAddr|Slice|TypeAssert|UnOp|BinOp|MakeSlice|Lookup|MapUpdate|Store|defer|Go|Send|Range|Next|before|unlock|b\d)`)
+
 func normName(n string) string {
 	n = ordRe.ReplaceAllString(n, "$1*")
-	return strings.ReplaceAll(n, "@defer*", "@call*")
+	n = strings.ReplaceAll(n, "@defer*", "@call*")
+	// write-footprint and lock-discipline obligations are identified by function and region, not by the site
+	// (a store may move into a helper or a closure without changing what the function writes)
+	// an obligation generated while a contract-less helper is executed in place carries "@helper" at the end:
+	// the same obligation whether the code sits in the function itself or in a helper it calls
+	if i := strings.LastIndex(n, "@"); i >= 0 {
+		if !siteRe.MatchString(n[i+1:]) {
+			n = n[:i]
+		}
+	}
+	for _, kind := range []string{".writes.", ".guarded.", ".nolock."} {
+		if i := strings.Index(n, kind); i >= 0 {
+			if j := strings.Index(n[i:], "@"); j >= 0 {
+				n = n[:i+j]
+			}
+		}
+	}
+	return n
 }
